@@ -960,6 +960,34 @@ def token_number(v, spec):
 _VERIF_ROOT = os.path.dirname(os.path.dirname(os.path.abspath(__file__)))
 
 
+def _mentions_harness_type(e):
+    """a TypeError/AttributeError/ValueError whose message names a class defined by the harness ('SN', a stub, ...): library
+    code was handed a symbolic stand-in it cannot digest (e.g. a new astype(float32)) -- the harness's limit, not a finding"""
+    if not isinstance(e, (TypeError, AttributeError, ValueError)):
+        return False
+    import re
+    names = set(re.findall(r"'([A-Za-z_][A-Za-z0-9_]*)'", str(e)))
+    if not names:
+        return False
+    for m in list(sys.modules.values()):
+        f = getattr(m, '__file__', None)
+        if f and os.path.abspath(f).startswith(_VERIF_ROOT):
+            for n in names:
+                if isinstance(getattr(m, n, None), type):
+                    return True
+    if names & {'SN', 'SB'}:
+        return True
+    # classes defined inside harness functions: look at the objects travelling with the traceback
+    tb = e.__traceback__
+    while tb is not None:
+        for v in list(tb.tb_frame.f_locals.values())[:200]:
+            t = type(v)
+            if t.__name__ in names and os.path.abspath(getattr(sys.modules.get(t.__module__), '__file__', '') or '').startswith(_VERIF_ROOT):
+                return True
+        tb = tb.tb_next
+    return False
+
+
 class Stats:
     def __init__(self):
         self.paths = 0
@@ -1002,7 +1030,7 @@ def _run_path(fn, trace):
         while tb is not None:
             last = tb.tb_frame.f_code.co_filename
             tb = tb.tb_next
-        if last and (last.startswith('<') or os.path.abspath(last).startswith(_VERIF_ROOT)):
+        if last and (last.startswith('<') or os.path.abspath(last).startswith(_VERIF_ROOT) or _mentions_harness_type(e)):
             status = 'unsupported: harness/slice not executable here: %s: %s' % (type(e).__name__, str(e)[:200])
             c.obligations = []
         else:
